@@ -133,10 +133,15 @@ def c06_roundtrip(n: int, i0: int, i1: int, i2: int, i3: int, perm: int) -> bool
   """
   pre: 0 <= n <= 4 and 0 <= i0 < 25 and 0 <= i1 < 25 and 0 <= i2 < 25 and 0 <= i3 < 25 and 0 <= perm < 3
   """
-  idx = [rt.pick(i, NC) for i in (i0, i1, i2, i3)[:n]]
-  for a, b in zip(idx, idx[1:]):
-    if a >= b:
-      rt.discard()                      # subsets, not sequences
+  # subsets, not sequences: each index is chosen above the previous one
+  idx = []
+  prev = -1
+  for ik in (i0, i1, i2, i3)[:n]:
+    room = NC - prev - 1
+    if room <= 0:
+      rt.discard()
+    prev = prev + 1 + rt.pick(ik, room)
+    idx.append(prev)
   perm = rt.pick(perm, 3)
   with rt.native():
     rt.sig(('roundtrip', tuple(idx), perm), nontrivial=len(idx) >= 2)
